@@ -39,6 +39,37 @@ pub open spec fn batch_applied(m: StoreView, kvvs: Seq<KVV>, n: int) -> StoreVie
     if n <= 0 { m } else { batch_applied(m, kvvs, n - 1).insert(kvvs[n - 1].0@, kvvs[n - 1].1) }
 }
 
+//@include frag/str_order.rs
+// `data.range(prefix.to_string()..)`: the entries whose key is not below `prefix`, in ascending key order (std BTreeMap)
+impl VxStrMap {
+    #[verifier::external_body]
+    pub fn vx_range_from(&self, from: &str) -> (r: Vec<(String, (u64, Vec<u8>))>)
+        ensures
+            forall|i: int| 0 <= i < r@.len() ==> self@.dom().contains((#[trigger] r@[i]).0@) && r@[i].1 == self@[r@[i].0@] && str_le(from@, r@[i].0@),
+            forall|i: int, j: int| 0 <= i < j < r@.len() ==> str_lt((#[trigger] r@[i]).0@, (#[trigger] r@[j]).0@),
+            forall|k: Seq<char>| #[trigger] self@.dom().contains(k) && str_le(from@, k) ==> exists|i: int| 0 <= i < r@.len() && (#[trigger] r@[i]).0@ == k,
+    { unimplemented!() }
+}
+#[verifier::external_body]
+pub fn vx_clone_vec(v: &Vec<u8>) -> (r: Vec<u8>) ensures r@ == v@ { v.clone() }
+// `Iter(result.into_iter())`: the records in the order collected
+pub struct VxIter(pub Vec<KVV>);
+// what a prefix read must return: exactly the stored records whose key starts with the prefix, each once, with the
+// stored version and bytes
+pub open spec fn prefix_read_ok(m: StoreView, prefix: Seq<char>, out: Seq<KVV>) -> bool {
+    &&& forall|i: int| 0 <= i < out.len() ==> m.dom().contains((#[trigger] out[i]).0@) && is_prefix(prefix, out[i].0@)
+            && out[i].1.0 == m[out[i].0@].0 && out[i].1.1@ == m[out[i].0@].1@
+    &&& forall|i: int, j: int| 0 <= i < j < out.len() ==> (#[trigger] out[i]).0@ != (#[trigger] out[j]).0@
+    &&& forall|k: Seq<char>| #[trigger] m.dom().contains(k) && is_prefix(prefix, k) ==> exists|i: int| 0 <= i < out.len() && (#[trigger] out[i]).0@ == k
+}
+
+// the plain write: the next version of the key (0 for a new key), so it is always accepted and never lowers a version
+pub open spec fn next_version(m: StoreView, k: Seq<char>) -> u64 { if m.dom().contains(k) { (m[k].0 + 1) as u64 } else { 0 } }
+pub open spec fn put_effect(a: StoreView, b: StoreView, k: Seq<char>, value: Seq<u8>) -> bool {
+    &&& b.dom().contains(k) && b[k].0 == next_version(a, k) && b[k].1@ == value
+    &&& forall|j: Seq<char>| j != k ==> ((#[trigger] b.dom().contains(j)) == a.dom().contains(j) && (a.dom().contains(j) ==> b[j] == a[j]))
+}
+
 impl MemoryKVVStore {
 
 //@fn vls-persist/src/kvv/memory.rs :: impl MemoryKVVStore :: new props=C16
@@ -69,7 +100,7 @@ impl MemoryKVVStore {
         r.is_ok() == write_ok(old(self).data.val@, key@, version, value@),                                               //[C16.mem.put-rule]
         r.is_ok() ==> final(self).data.val@.dom().contains(key@) && final(self).data.val@[key@].0 == version
             && final(self).data.val@[key@].1@ == value@
-            && forall|k: Seq<char>| k != key@ ==> (final(self).data.val@.dom().contains(k) == old(self).data.val@.dom().contains(k)
+            && forall|k: Seq<char>| k != key@ ==> ((#[trigger] final(self).data.val@.dom().contains(k)) == old(self).data.val@.dom().contains(k)
                 && (old(self).data.val@.dom().contains(k) ==> final(self).data.val@[k] == old(self).data.val@[k])),      //[C16.mem.put-frame]
         r.is_err() ==> final(self).data.val@ == old(self).data.val@,                                                     //[C10.kvv-mem.put-err-frame]
         versions_monotone(old(self).data.val@, final(self).data.val@),                                                   //[C16.mem.versions-never-decrease]
@@ -93,6 +124,60 @@ impl MemoryKVVStore {
 //@loop 2 iter=it2
             invariant
                 self.data.val@ == batch_applied(old(self).data.val@, kvvs@, it2.index@ as int),
+//@end
+
+//@fn vls-persist/src/kvv/memory.rs :: impl KVVStore for MemoryKVVStore :: put props=C16 optclosures
+//@sigsub /&self/ => &mut self
+    requires old(self).data.val@.dom().contains(key@) ==> old(self).data.val@[key@].0 < u64::MAX,     // v + 1 aborts (overflow check) at the last version
+    ensures
+        r.is_ok(), put_effect(old(self).data.val@, final(self).data.val@, key@, value@),              //[C16.mem.put-next-version]
+        versions_monotone(old(self).data.val@, final(self).data.val@),                                //[C16.mem.put-versions-never-decrease]
+//@end
+
+//@fn vls-persist/src/kvv/memory.rs :: impl KVVStore for MemoryKVVStore :: delete props=C16
+//@sigsub /&self/ => &mut self
+    requires old(self).data.val@.dom().contains(key@) ==> old(self).data.val@[key@].0 < u64::MAX,
+    ensures
+        // a delete is a write of the empty value at the next version (a tombstone): the version is not lowered
+        r.is_ok(), put_effect(old(self).data.val@, final(self).data.val@, key@, Seq::<u8>::empty()),   //[C16.mem.delete-is-a-tombstone]
+        versions_monotone(old(self).data.val@, final(self).data.val@),                                //[C16.mem.delete-versions-never-decrease]
+//@end
+
+//@fn vls-persist/src/kvv/memory.rs :: impl KVVStore for MemoryKVVStore :: get_prefix props=C16
+//@sigsub /&self/ => &mut self
+//@sigsub /Self::Iter/ => VxIter
+    ensures
+        final(self).data.val@ == old(self).data.val@,
+        r.is_ok(), prefix_read_ok(old(self).data.val@, prefix@, r->Ok_0.0@),                          //[C16.mem.prefix-read-is-exactly-the-matching-records]
+//@sub /for \(k, \(ver, value\)\) in self\.data\.val\.range\(prefix\.to_string\(\)\.\.\) \{/ => let vx_rng = self.data.val.vx_range_from(prefix); for vx_e in it: vx_rng.iter() { let k = &vx_e.0; let ver = &vx_e.1.0; let value = &vx_e.1.1;
+//@sub /k\.starts_with\(prefix\)/ => vx_starts_with(k.as_str(), prefix)
+//@sub /let mut result = Vec::new\(\);/ => let mut result: Vec<KVV> = Vec::new();
+//@sub /k\.clone\(\)/ => vx_to_string(k.as_str())
+//@sub /value\.clone\(\)/ => vx_clone_vec(value)
+//@sub /Ok\(Iter\(result\.into_iter\(\)\)\)/ => Ok(VxIter(result))
+//@loop 1
+            invariant_except_break result@.len() == it.index@,
+            invariant
+                self.data.val == old(self).data.val,
+                result@.len() <= vx_rng@.len(),
+                forall|i: int| 0 <= i < result@.len() ==> (#[trigger] result@[i]).0@ == vx_rng@[i].0@ && result@[i].1.0 == vx_rng@[i].1.0
+                    && result@[i].1.1@ == vx_rng@[i].1.1@ && is_prefix(prefix@, result@[i].0@),
+            ensures result@.len() < vx_rng@.len() ==> !is_prefix(prefix@, vx_rng@[result@.len() as int].0@),
+//@proof before /^\s*Ok\(VxIter\(result\)\)\s*$/
+        proof {
+            let m = old(self).data.val@; let out = result@; let n = out.len() as int;
+            assert forall|k: Seq<char>| #[trigger] m.dom().contains(k) && is_prefix(prefix@, k) implies
+                exists|i: int| 0 <= i < out.len() && (#[trigger] out[i]).0@ == k by {
+                axiom_str_order_prefix_first(prefix@, k);
+                let j = choose|j: int| 0 <= j < vx_rng@.len() && (#[trigger] vx_rng@[j]).0@ == k;
+                if j >= n {
+                    // the scan stopped at position n on a key that does not start with the prefix: no later key does
+                    if j > n { axiom_str_order_prefix_block(prefix@, vx_rng@[n].0@, vx_rng@[j].0@); }
+                    assert(false);
+                }
+                assert(out[j].0@ == k);
+            }
+        }
 //@end
 
 } // impl
